@@ -5,6 +5,7 @@ The regex engine is a parameter; `EngValid eng` is the parameter assumption (eve
 ordered, non-overlapping, inside the string, groups inside their match), checked by the harness on
 every list the real engine returns.
 -/
+import Verif.Generated.TablesC14
 import Verif.C13.Lemmas
 import Verif.C14.LemmasRule
 import Verif.C14.LemmasMerge
@@ -148,5 +149,45 @@ example : (applyRule "za c".toList [⟨1, 2, [none, some (1, 2)]⟩] [.lit ['-']
 example : latParse (latStr [⟨0, 0, 1, .charspan 0 3, [1], "a\"\\".toList, none, 0⟩])
     = some [⟨0, 0, 1, .charspan 0 3, [1], "a\"\\".toList, none, 0⟩] :=
   yy_roundtrip _ (by intro t ht; simp at ht; subst ht; exact ⟨by simp, by simp [L.LnkOk]⟩)
+
+/-- Pins: the constants of the anchored code that the models of C14 hand-code (harness/c14.py
+`tables()`), read from the live modules on every run.
+* `c14MergemapConsts`, `c14TraceConsts` (`startmap[0] = 1`, `endmap[-1] = -1`), `c14ZeromapConsts`
+  — `mergeAux`, `initStart`, `initEnd` (C14/Model.lean);
+* `c14InsertPartConsts`, `c14ProcessMatchConsts`, `c14RuleApplyConsts` — `insertPart`, `procTracked`,
+  `applyRule` (C13/Model.lean), whose offset arithmetic `provenance_rule` is about;
+* `c14DefaultTokenizer`, `c14TokenizeConsts` (`sm[pos + 1]`), `c14TokenizeResultConsts` (`end = i + 1`),
+  the tokenize defaults — `mkTok`, `tokLoop`, `latticeOf` and the harness's separator patterns;
+* `c14YyRe` — `matchTok` and its scanners `scanInt`, `scanComma`, `scanString`, `scanPaths`, `scanLnk`,
+  `scanStrings`; `c14FromStringConsts` — `_qstrip` = `s[1:-1]`, group names;
+* `c14EscapeConsts`, `c14UnescapeConsts`, `c14UnescapeDotall` — `escapeDQ`, `unescapeDQ` (Common/Codec.lean);
+* `c14YYStrConsts`, `c14LatticeStrConsts`, `c14YYTokenNewDefaults` — `YTok.str`, `latStr`, the default
+  `paths = (1,)`, `ipos = 0`, `lrules = ("null",)` in `latticeOf`;
+* `c14LnkStrConsts`, `c14LnkBoolConsts` — `Lnk.str`, `Lnk.truthy` (`<-1:-1>` is falsy). -/
+theorem c14_pins :
+    Verif.Tables.c14DefaultTokenizer = "[ \\t]+"
+    ∧ Verif.Tables.c14YyRe = "\\(\\s*(?P<id>-?\\d+)\\s*,\\s*(?P<start>-?\\d+)\\s*,\\s*(?P<end>-?\\d+)\\s*,\\s*(?:<(?P<lnkfrom>-?\\d+):(?P<lnkto>-?\\d+)>\\s*,\\s*)?(?P<paths>(?:-?\\d+\\s*)+)\\s*,\\s*(?P<form>\"[^\"\\\\]*(?:\\\\.[^\"\\\\]*)*\")(?:\\s*(?P<surface>\"[^\"\\\\]*(?:\\\\.[^\"\\\\]*)*\"))?\\s*,\\s*(?P<ipos>-?\\d+)\\s*,\\s*(?P<lrules>(?:\"[^\"\\\\]*(?:\\\\.[^\"\\\\]*)*\"\\s*)+)(?:\\s*,\\s*(?P<pos>(?:\"[^\"\\\\]*(?:\\\\.[^\"\\\\]*)*\"\\s+-?(0|[1-9]\\d*)(\\.\\d+[eE][-+]?|\\.|[eE][-+]?)\\d+\\s*)+))?\\s*\\)"
+    ∧ Verif.Tables.c14YyReFlags = 32
+    ∧ Verif.Tables.c14UnescapeDotall = true
+    ∧ Verif.Tables.c14MergemapConsts = ["i", "0"]
+    ∧ Verif.Tables.c14ZeromapConsts = ["i", "0", "2"]
+    ∧ Verif.Tables.c14TraceConsts = ["1", "0", "-1"]
+    ∧ Verif.Tables.c14InsertPartConsts = ["1", "-1"]
+    ∧ Verif.Tables.c14ProcessMatchConsts = ["i", "0", "False", "-1", "1", "True", "1", "", ""]
+    ∧ Verif.Tables.c14RuleApplyConsts = ["False", "0", "i", "True", "1", ""]
+    ∧ Verif.Tables.c14TokenizeConsts = ["0", "1"]
+    ∧ Verif.Tables.c14TokenizeResultConsts = ["1", "0", "2", "(id,start,end,lnk,form)"]
+    ∧ Verif.Tables.c14TokenizeMethodConsts = ["False", "(pattern)"]
+    ∧ Verif.Tables.c14EscapeConsts = ["\\", "\\\\", "\"", "\\\""]
+    ∧ Verif.Tables.c14UnescapeConsts = ["\\\\(.)", "\\1", "(flags)"]
+    ∧ Verif.Tables.c14YYStrConsts = [" ", "1", "\"", "\" \"", "\"{}\"", "\" ", ".4f", "({})", ", "]
+    ∧ Verif.Tables.c14FromStringConsts = ["1", "-1", "lnkfrom", "lnkto", "pos", "2", "1", "id", "start", "end", "paths", "form", "surface", "ipos", "lrules"]
+    ∧ Verif.Tables.c14LatticeStrConsts = [" "]
+    ∧ Verif.Tables.c14LnkStrConsts = ["", "<{}:{}>", "0", "1", "<{}#{}>", "<@{}>", "<{}>", " "]
+    ∧ Verif.Tables.c14LnkBoolConsts = ["False", "(-1,-1)", "True"]
+    ∧ Verif.Tables.c14TokenizeDefaults = ["None", "None"]
+    ∧ Verif.Tables.c14TokenizeResultDefaults = ["'[ \\\\t]+'"]
+    ∧ Verif.Tables.c14YYTokenNewDefaults = ["None", "(1,)", "None", "None", "0", "('null',)", "()"] := by
+  refine ⟨?_, ?_, ?_, ?_, ?_, ?_, ?_, ?_, ?_, ?_, ?_, ?_, ?_, ?_, ?_, ?_, ?_, ?_, ?_, ?_, ?_, ?_, ?_⟩ <;> rfl
 
 end Verif.C14
